@@ -632,6 +632,51 @@ func standbyRace(prop string, nreq, bound int) *sched.Scenario {
 	return sc
 }
 
+// codeRatioRace (C18): after one healthy response, the FIRST two responses with status 503 the breaker has ever
+// seen complete concurrently, inside one check period (nothing is evaluated meanwhile). At quiescence the check
+// period elapses and one more healthy response arrives, alone: the condition is evaluated over exactly 200, 503,
+// 503 (, 200) - it holds whichever way the evaluation is ordered against the last recording - and the breaker
+// must trip. Every recorded response counts, also the two that raced to be the first of their status code.
+func codeRatioRace(prop string, bound int) *sched.Scenario {
+	sc := &sched.Scenario{Name: fmt.Sprintf("breaker-first-responses-of-a-code-race/bound=%d", bound), Bound: bound}
+	sc.New = func() *sched.Instance {
+		clock.VerifInstall(base, nil)
+		codes := []int{200, 503, 503, 200}
+		h := http.HandlerFunc(func(rw http.ResponseWriter, r *http.Request) { rw.WriteHeader(codes[int(r.Header.Get("T")[0]-'0')]) })
+		cb, err := cbreaker.New(h, "ResponseCodeRatio(500, 600, 0, 600) > 0.35", cbreaker.FallbackDuration(cFallback), cbreaker.RecoveryDuration(cRecovery), cbreaker.CheckPeriod(100*time.Millisecond))
+		if err != nil {
+			panic(err)
+		}
+		do := func(t int) int {
+			rec := httptest.NewRecorder()
+			req := httptest.NewRequest("GET", "http://x/", nil)
+			req.Header.Set("T", fmt.Sprint(t))
+			cb.ServeHTTP(rec, req)
+			return rec.Code
+		}
+		first := do(0)
+		prepared := first == 200 && stateOf(cb) == "standby"
+		var got [2]int
+		inst := &sched.Instance{Names: []string{"F1-503", "F2-503"}}
+		inst.Bodies = []func(){func() { got[0] = do(1) }, func() { got[1] = do(2) }}
+		inst.Check = func(x *vrt.Exec) []vrt.Failure {
+			if !prepared || got[0] != 503 || got[1] != 503 || stateOf(cb) != "standby" {
+				return []vrt.Failure{{Key: prop + ":harness:first-responses-race-not-prepared", Detail: fmt.Sprintf("first=%d got=%v %s", first, got, cb.String())}}
+			}
+			clock.VerifAdvance(150 * time.Millisecond)
+			last := do(3)
+			if st := stateOf(cb); st != "tripped" {
+				return []vrt.Failure{{Key: prop + ":condition-held-but-not-tripped:concurrent-first-responses-of-a-code",
+					Detail: fmt.Sprintf("recorded: 200, then two 503 completing concurrently (the first two of that code), then - a check period later, alone - a 200 (answered %d): ResponseCodeRatio(500,600,0,600) is 2/4 (2/3 before the last recording) > 0.35, yet the breaker is %s", last, cb.String())}}
+			}
+			return nil
+		}
+		inst.Outcome = func() string { return stateOf(cb) }
+		return inst
+	}
+	return sc
+}
+
 func keys(m map[int]bool) []int {
 	var out []int
 	for k := range m {
@@ -651,7 +696,7 @@ func Scenarios(prop, tier string) []*sched.Scenario {
 	case "C05":
 		return []*sched.Scenario{tripRace(prop, 3, b), tripRace(prop, 2, b+1), retripRace(b), skewRace(prop, b+1)}
 	case "C18":
-		return []*sched.Scenario{tripRace(prop, 3, b), tripRace(prop, 2, b+1), mixedRace(b + 1), standbyRace(prop, 2, b+1), standbyRace(prop, 3, b)}
+		return []*sched.Scenario{tripRace(prop, 3, b), tripRace(prop, 2, b+1), mixedRace(b + 1), standbyRace(prop, 2, b+1), standbyRace(prop, 3, b), codeRatioRace(prop, b+1)}
 	default:
 		return []*sched.Scenario{tripRace(prop, 3, b), tripRace(prop, 2, b+1)}
 	}
